@@ -527,7 +527,7 @@ def r5(ctx):
     if ok_sel:
         cp = cur[0]
         def unpad(e):
-            e1 = inline(e, lenv, depth=1)
+            e1 = inline(e, lenv, depth=1) if isinstance(e, ast.Name) else e
             if isinstance(e1, ast.Call) and U(e1.func) == "pad_ragged_arrays_to_dense_array":
                 e1 = e1.args[0]
                 for _ in range(3):
